@@ -416,7 +416,7 @@ const INT_FIELDS: &[&str] = &["dim", "id", "num_edges", "dimension", "num_loops"
 const F64_FIELDS: &[&str] = &["dod", "cached_factor", "generalized_dod", "j_function", "weight"];
 const INT_METHODS: &[&str] = &["len", "get_dim", "get_id", "count_ones", "pow", "get_num_variables", "get_dimension"];
 const F64_METHODS: &[&str] = &["to_f64", "verif_as_f64", "compute_weight_sum"];
-const F64_SELF_METHODS: &[&str] = &["abs", "fract", "floor", "ceil", "round", "trunc", "sqrt", "ln", "exp", "sin", "cos", "tan", "powf", "powi", "recip", "signum", "max", "min", "mul_add", "clone", "clamp", "log10", "log2", "exp_m1", "ln_1p", "to_degrees", "to_radians", "copysign"];
+const F64_SELF_METHODS: &[&str] = &["abs", "fract", "floor", "ceil", "round", "trunc", "sqrt", "ln", "exp", "sin", "cos", "tan", "powf", "powi", "recip", "signum", "max", "min", "mul_add", "clone", "clamp", "log10", "log2", "exp_m1", "ln_1p", "to_degrees", "to_radians", "copysign", "unwrap"];
 const INT_TYPES: &[&str] = &["usize", "isize", "u8", "u16", "u32", "u64", "i8", "i16", "i32", "i64", "u128", "i128"];
 
 fn kind_of_type_str(t: &str) -> (K, K) {
@@ -1199,6 +1199,41 @@ impl<'s> Walker<'s> {
                     "zip" if m.args.len() == 1 => {
                         self.open(es, "verif_zip(", "R13");
                         self.replace((re, po_end), ", ", "R13");
+                    }
+                    "sum" if self.ov.opts.get("desugar_map_sum").map(|v| v == "on").unwrap_or(false)
+                        && matches!(&*m.receiver, MethodCall(inner) if inner.method == "map" && inner.args.len() == 1 && matches!(&inner.args[0], Closure(c) if c.inputs.len() == 1)) =>
+                    {
+                        // R16: `RECV.map(|P| BODY).sum()` for a closure with mutable captured state (outside R13): the definitions of
+                        // `Iterator::map` (lazy: the closure runs when the item is pulled) and `Sum<f64>` (left fold with `+` from the
+                        // additive identity) written out as a loop:
+                        //   { let mut it = RECV; let mut acc: f64 = f64_sum_init(); loop { match it.next() { None => break,
+                        //     Some(P) => { let item: f64 = BODY; acc = f64_add(acc, item); } } } acc }
+                        if let MethodCall(inner) = &*m.receiver {
+                            if let Closure(c) = &inner.args[0] {
+                                self.loops += 1;
+                                let name = format!("L{}", self.loops);
+                                let (rs, rend) = self.src.range(inner.receiver.span());
+                                let (ps, pe) = self.src.range(c.inputs[0].span());
+                                let (bs, be) = self.src.range(c.body.span());
+                                let inv = self.anchor_text(&format!("{}.inv", name)).unwrap_or_default();
+                                let endt = self.anchor_text(&format!("{}.end", name)).unwrap_or_default();
+                                let post = self.anchor_text(&format!("{}.post", name)).unwrap_or_default();
+                                let _ = rs;
+                                self.open(es, "{ let mut verif_sum_it = ", "R16");
+                                let pre = self.anchor_text(&format!("{}.pre", name)).unwrap_or_default();
+                                let begin = self.anchor_text(&format!("{}.begin", name)).unwrap_or_default();
+                                self.replace((rend, ps), &format!("; let mut verif_sum_acc: f64 = f64_sum_init();\n{}\n loop\n{}\n{{ match verif_sum_it.next() {{ None => {{ break; }} Some(", pre.trim_end(), inv.trim_end()), "R16");
+                                self.replace((pe, bs), &format!(") => {{\n{}\n let verif_sum_item: f64 = ", begin.trim_end()), "R16");
+                                self.replace((be, ee), &format!("; verif_sum_acc = f64_add(verif_sum_acc, verif_sum_item);\n{}\n }} }} }}\n{}\n verif_sum_acc }}", endt.trim_end(), post.trim_end()), "R16");
+                                self.walk_expr(&inner.receiver);
+                                self.env.push(HashMap::new());
+                                self.bind_pat(&c.inputs[0], (K::Other, K::Other));
+                                self.walk_expr(&c.body);
+                                self.env.pop();
+                                self.depth -= 1;
+                                return;
+                            }
+                        }
                     }
                     "product" | "sum" if matches!(&*m.receiver, MethodCall(inner) if inner.method == "map" && inner.args.len() == 1) => {
                         // `.map(F).product::<f64>()` / `.map(F).sum()`  ->  verif_map_product(RECV, F) / verif_map_sum(RECV, F)
